@@ -56,7 +56,10 @@ def rv(x) -> z3.ArithRef:
         raise _unsupported(f"non-finite constant {f} lifted into a real term")
     if f == int(f) and abs(f) < 1e15:
         return z3.RealVal(int(f))
-    return z3.RealVal(str(Fraction(f)))
+    # a float constant enters as the shortest decimal that round-trips (what the programmer wrote: 1e-3 -> 1/1000),
+    # not as its binary expansion: the binary rationals (denominators 2^59) make nlsat's algebraic-number
+    # arithmetic blow up without changing what is modelled (floats are modelled as reals either way, DESIGN 2.7)
+    return z3.RealVal(str(Fraction(repr(f))))
 
 
 class _NI(Exception):
